@@ -268,11 +268,24 @@ func (ipv6 *IPv6) DecodeFromBytes(data []byte, df gopacket.DecodeFeedback) error
 	}
 
 	pEnd := int(ipv6.Length)
+	if ipv6.HopByHop != nil {
+		// the payload length counts the hop-by-hop header, which has
+		// already been stripped from Payload
+		pEnd -= ipv6.hbh.ActualLength
+		if pEnd < 0 {
+			return fmt.Errorf("IPv6 length %d is smaller than its HopByHop header (%d)", ipv6.Length, ipv6.hbh.ActualLength)
+		}
+	}
 	if pEnd > len(ipv6.Payload) {
 		df.SetTruncated()
 		pEnd = len(ipv6.Payload)
 	}
 	ipv6.Payload = ipv6.Payload[:pEnd]
+	if ipv6.HopByHop != nil {
+		// packet decoding continues from the HopByHop layer: it must see the
+		// same, length-limited payload as in-place decoding does
+		ipv6.hbh.Payload = ipv6.Payload
+	}
 
 	return nil
 }
